@@ -120,7 +120,8 @@ def tiny_copy_big_gradient_set(r, vb=1000):
             small = [(qx + (x - cx) / sc, qy + (y - cy) / sc) for x, y in base]
             d1 = "M" + " L".join(f"{x:.4f},{y:.4f}" for x, y in small) + " Z"
         rad = vb * r.uniform(0.9 if kind == "radial-elliptical" else 0.6, 2.0)
-        gx, gy = qx + vb * r.uniform(-0.2, 0.2), qy + vb * r.uniform(-0.2, 0.2)
+        # the copy sits well off the gradient's centre, along the axis an elliptical gradient squeezes
+        gx, gy = qx + rad * r.uniform(-0.3, 0.3), qy + rad * r.uniform(0.25, 0.6) * r.choice([-1, 1])
         gt = ""
         if kind == "radial-elliptical":
             gt = f' gradientTransform="translate({gx:.3f} {gy:.3f}) scale(1 {r.uniform(0.4, 0.8):.3f}) translate({-gx:.3f} {-gy:.3f})"'
